@@ -23,7 +23,7 @@ pub static PROP: Prop = Prop {
         "the reply kind is decoded independently from the reply bytes (stratum / kiss code / NTPv5 flags)",
     ],
     profiles: Profiles::Ship,
-    cases: |t| t.pick(40_000, 1_000_000),
+    cases: |t| t.pick(80_000, 1_000_000),
     budget_s: |t| t.pick(40, 400),
     run,
     min_nontrivial: 500,
